@@ -1,4 +1,5 @@
 import json
+import os
 import shutil
 from contextlib import contextmanager
 from os import stat
@@ -244,15 +245,26 @@ class LocalModelDirectoryDatabaseTransaction(ModelTransaction):
         # NOTE: Get the hash of the dataset and list filenames with contents
         # matching this hash only
         h = self.key.dataset_hash
-        h_dir = datasets_path / DIRECTORY_INDEX / str(h)
+        index_path = datasets_path / DIRECTORY_INDEX
+        h_dir = index_path / str(h)
+
+        # NOTE: An index entry is only trusted if its datainfo is completely
+        # there (it is written last). A store that was interrupted in between
+        # leaves an incomplete entry, which is rewritten here.
+        dataset_filename = None
+        curdi = None
         if h_dir.is_dir():
-            hpath = next(h_dir.iterdir())
-            # NOTE: This variable holds a string similar to "run1.csv"
-            matching_model_filename = hpath.name
-            data_path = datasets_path / matching_model_filename
-            dipath = data_path.with_suffix('.datainfo')
-            # TODO: Maybe catch FileNotFoundError and similar here (pass)
-            curdi = DataInfo.read_json(dipath)
+            hpath = next(h_dir.iterdir(), None)
+            if hpath is not None:
+                # NOTE: This variable holds a string similar to "data1.csv"
+                dataset_filename = hpath.name
+                dipath = (datasets_path / dataset_filename).with_suffix('.datainfo')
+                try:
+                    curdi = DataInfo.read_json(dipath)
+                except (FileNotFoundError, ValueError):
+                    curdi = None
+
+        if curdi is not None:
             # NOTE: Paths are not compared here
             if curdi == model.datainfo:
                 datainfo = model.datainfo.replace(path=curdi.path)
@@ -260,29 +272,31 @@ class LocalModelDirectoryDatabaseTransaction(ModelTransaction):
         else:
             h_dir.mkdir(parents=True, exist_ok=True)
 
-            highest = 0
-            for file in datasets_path.iterdir():
-                name = file.name
-                if name.startswith('data') and name.endswith('.csv'):
-                    number = int(name[4:-4])  # Remove data and .csv
-                    if number > highest:
-                        highest = number
+            if dataset_filename is None:
+                highest = 0
+                candidates = list(datasets_path.iterdir()) + list(index_path.glob('*/data*.csv'))
+                for file in candidates:
+                    name = file.name
+                    if name.startswith('data') and name.endswith('.csv'):
+                        number = int(name[4:-4])  # Remove data and .csv
+                        if number > highest:
+                            highest = number
+                dataset_filename = f'data{highest + 1}.csv'
+                # NOTE: Create the index file at .datasets/.hash/<hash>/<dataset_filename>
+                (h_dir / dataset_filename).touch()
 
-            dataset_basename = f'data{highest + 1}'
-            dataset_filename = f'{dataset_basename}.csv'
-
-            # NOTE: Create the index file at .datasets/.hash/<hash>/<dataset_filename>
-            index_path = h_dir / dataset_filename
-            index_path.touch()
-
+            dataset_basename = dataset_filename[:-4]
             data_path = path_absolute(datasets_path / dataset_filename)
             datainfo = model.datainfo.replace(path=data_path)
             model = model.replace(datainfo=datainfo)
             model = write_csv(model, path=data_path, force=True)
 
-            # NOTE: Write datainfo last so that we are "sure" dataset is there
-            # if datainfo is there
-            model.datainfo.to_json(datasets_path / (dataset_basename + '.datainfo'))
+            # NOTE: Write datainfo last and atomically so that the dataset is
+            # there and complete if the datainfo is there
+            dipath = datasets_path / (dataset_basename + '.datainfo')
+            tmppath = datasets_path / (dataset_basename + '.datainfo.tmp')
+            model.datainfo.to_json(tmppath)
+            os.replace(tmppath, dipath)
 
         # NOTE: Write the model
         model_path.mkdir(exist_ok=True)
